@@ -257,13 +257,14 @@ def gen_history(seed: int, tier: str) -> dict:
                 where = ['foreign']
             else:
                 where = ['wrongkind', r.randrange(64)]
-            ops.append({'op': 'apply', 'node': r.randrange(64), 'strategy': name, 'params': gen_params(r, name), 'where': where})
+            ops.append({'op': 'apply', 'node': r.choice([r.randrange(64), -1, -1]), 'strategy': name, 'params': gen_params(r, name),
+                        'where': where})
         elif x < 0.70:
             ops.append({'op': 'opaque', 'node': r.randrange(64), 'name': r.choice(OPAQUE)})
         elif x < 0.74:
             ops.append({'op': 'with_rt', 'node': r.randrange(64)})
         elif x < 0.92:
-            ops.append({'op': 'forward', 'cursor': r.randrange(64), 'node': r.randrange(64)})
+            ops.append({'op': 'forward', 'cursor': r.randrange(64), 'node': r.choice([r.randrange(64), -1])})
         else:
             lname = r.choice(strategies or AIMABLE)
             ops.append({'op': 'list', 'node': r.randrange(64), 'strategy': lname, 'params': gen_params(r, lname),
@@ -295,7 +296,8 @@ class World:
         self.vios.append({'property': PROP, 'cls': cls, 'signature': sig, 'detail': detail, 'case': self.hist})
 
     def node(self, k: int):
-        return k % len(self.nodes)
+        # a negative index names the most recently derived program: rewrites are usually chained
+        return len(self.nodes) - 1 if k < 0 else k % len(self.nodes)
 
     def canon(self, i: int) -> int:
         """The first node holding the same program (with_rt copies share it)."""
